@@ -93,7 +93,7 @@ def case(c, stats):
             sites = c02.fault_sites(schema, ex)
             sites = [x for x in sites if x[1][0] != "$type"]
             if sites:
-                lab, key, f, _ = sites[c.int(0, len(sites) - 1)]
+                lab, key, f, _ = c02.pick_fault(c, sites)
                 spec["faults"] = [[list(key), c02.fault_to_json(f)]]
         cspec = dict(spec, plan=plan, config=cfg)
         scripts = [[c.int(0, 7) for _ in range(c.int(1, 12))] for _ in range(4)]
